@@ -329,6 +329,8 @@ class Interp:
                 if last in ("append", "extend", "insert", "pop", "get", "setdefault", "update",
                             "items", "keys", "values", "copy", "clear", "reverse", "add"):
                     return self.native(fn, args, kwargs)
+            if isinstance(fn, types.BuiltinMethodType) and isinstance(fn.__self__, str) and name.split(".")[-1] == "join" and len(args) == 1:
+                return _str_join_model(self, fn.__self__, args[0])
             self.ctx.note(f"unmodelled-call:{name}")
             return Opaque(name)
         return self.native(fn, args, kwargs)
@@ -1217,6 +1219,15 @@ class Interp:
         return result
 
     def e_IfExp(self, node, env):
+        if getattr(self, "nofork", False):
+            c = self.eval(node.test, env)
+            if isinstance(c, SBool):
+                a, b = self.eval(node.body, env), self.eval(node.orelse, env)
+                try:
+                    return wrap(z3.If(c.t, term(a), term(b)))
+                except (TypeError, z3.Z3Exception):
+                    raise Undecided("conditional expression over a generic element has non-scalar arms")
+            return self.eval(node.body, env) if c else self.eval(node.orelse, env)
         if self.truth(self.eval(node.test, env)):
             return self.eval(node.body, env)
         return self.eval(node.orelse, env)
@@ -1399,6 +1410,21 @@ class Interp:
             return None
         g = node.generators[0]
         src = self.eval(g.iter, env)
+        if isinstance(src, SStr):
+            st = src.t
+
+            def getc(i, st=st):
+                e = Env(env, env.fn_globals, "comp")
+                self.assign_target(g.target, SStr(z3.SubString(st, i, 1)), e)
+                prev = getattr(self, "nofork", False)
+                self.nofork = True
+                try:
+                    return self.eval(node.elt, e)
+                finally:
+                    self.nofork = prev
+            r = SSeq(z3.Length(st), getc, name="chars-map")
+            r.char_map = True
+            return r
         if isinstance(src, SSeq) and not z3.is_int_value(z3.simplify(src.len)):
             def get(i, src=src):
                 e = Env(env, env.fn_globals, "comp")
@@ -1452,6 +1478,15 @@ class Interp:
             return self.call(self._bind_class_attr(raw, c, cls), [k])
         if isinstance(c, SDict):
             return c.getitem(self, k)
+        if isinstance(c, SStr):
+            if isinstance(k, slice):
+                raise Undecided("slice of symbolic string")
+            kt = term(k)
+            n = z3.Length(c.t)
+            idx = kt if not self.ctx.branch(kt < 0) else n + kt
+            if not self.ctx.branch(z3.And(idx >= 0, idx < n)):
+                raise PyRaise(IndexError("string index out of range"))
+            return SStr(z3.SubString(c.t, idx, 1))
         if isinstance(c, Opaque):
             self.ctx.note(f"unmodelled-subscript:{c.why}")
             return Opaque(c.why + "[]")
@@ -2234,7 +2269,19 @@ def _m_copysign(interp, x, y):
 
 import math as _math
 
+def _m_object_setattr(interp, obj, name, value):
+    if isinstance(obj, SObj):
+        if not isinstance(name, str):
+            # attribute with a symbolic name: kept aside (only reachable again through a symbolic getattr)
+            obj.fields.setdefault("__symbolic_attrs__", []).append((name, value))
+            return None
+        obj.fields[name] = value
+        return None
+    return interp.native(object.__setattr__, [obj, name, value], {})
+
+
 DEFAULT_MODELS = {
+    object.__setattr__: _m_object_setattr,
     _math.copysign: _m_copysign,
     isinstance: _m_isinstance, len: _m_len, set: _m_set, list: _m_list, tuple: _m_tuple,
     reversed: _m_reversed, bool: _m_bool, int: _m_int, str: _m_str, range: _m_range,
@@ -2319,6 +2366,72 @@ def _str_endswith(interp, s, p, *a):
     return wrap(z3.SuffixOf(term(p), s.t))
 
 
+def _char_class(t, kind):
+    """isalpha/isalnum/isdigit on a symbolic string (python semantics: non-empty and every char in the class).
+    Interpreted exactly on ASCII; for code points >= 128 an uninterpreted predicate with isalpha => isalnum."""
+    i = z3.Int("ci!" + kind)
+    c = z3.SubString(t, i, 1)
+    return z3.And(z3.Length(t) > 0, z3.ForAll([i], z3.Implies(z3.And(i >= 0, i < z3.Length(t)), _one_char(c, kind))))
+
+
+_UAlpha = z3.Function("UnicodeAlpha", StrSort, z3.BoolSort())
+_UAlnum = z3.Function("UnicodeAlnum", StrSort, z3.BoolSort())
+
+
+def _one_char(c, kind):
+    code = z3.StrToCode(c)
+    lower = z3.And(code >= 97, code <= 122)
+    upper = z3.And(code >= 65, code <= 90)
+    digit = z3.And(code >= 48, code <= 57)
+    ascii_ = code < 128
+    alpha = z3.If(ascii_, z3.Or(lower, upper), _UAlpha(c))
+    if kind == "alpha":
+        return alpha
+    if kind == "digit":
+        return z3.And(ascii_, digit)
+    return z3.If(ascii_, z3.Or(lower, upper, digit), z3.Or(_UAlpha(c), _UAlnum(c)))
+
+
+def _str_isalpha(interp, s):
+    if z3.is_true(z3.simplify(z3.Length(s.t) == 1)) or getattr(interp, "nofork", False):
+        return wrap(z3.And(z3.Length(s.t) == 1, _one_char(s.t, "alpha"))) if getattr(interp, "nofork", False) else wrap(_one_char(s.t, "alpha"))
+    return wrap(_char_class(s.t, "alpha"))
+
+
+def _str_isalnum(interp, s):
+    if getattr(interp, "nofork", False):
+        return wrap(z3.And(z3.Length(s.t) == 1, _one_char(s.t, "alnum")))
+    return wrap(_char_class(s.t, "alnum"))
+
+
+def _str_isdigit(interp, s):
+    if getattr(interp, "nofork", False):
+        return wrap(z3.And(z3.Length(s.t) == 1, _one_char(s.t, "digit")))
+    return wrap(_char_class(s.t, "digit"))
+
+
+def _str_join_model(interp, sep, seq):
+    """sep.join(seq) for sep == '' and a lazy per-character map of a symbolic string."""
+    if isinstance(seq, SSeq) and getattr(seq, "char_map", False) and sep == "":
+        ctx = interp.ctx
+        r = ctx.const("joined", StrSort)
+        i = z3.Int(ctx.fresh("ji"))
+        el = seq.at(i)
+        et = term(el)
+        ctx.assume(z3.Length(r) == seq.len)
+        ctx.assume(z3.ForAll([i], z3.Implies(z3.And(i >= 0, i < seq.len), z3.SubString(r, i, 1) == et)))
+        # every mapped element is a single character (the map is char -> char)
+        return SStr(r)
+    if isinstance(seq, (list, tuple)) and all(isinstance(x, (str, SStr)) for x in seq):
+        if not seq:
+            return ""
+        acc = term(seq[0])
+        for x in seq[1:]:
+            acc = z3.Concat(acc, term(sep), term(x))
+        return wrap(acc)
+    raise Undecided("str.join over symbolic values")
+
+
 def _str_replace(interp, s, a, b, *cnt):
     if cnt:
         raise Undecided("str.replace with count")
@@ -2331,5 +2444,6 @@ METHODS = {
     (SSet, "discard"): _set_discard, (SSet, "copy"): _set_copy, (SSet, "update"): _set_update,
     (SSet, "issubset"): _set_issubset, (SSet, "isdisjoint"): _set_isdisjoint,
     (SStr, "startswith"): _str_startswith, (SStr, "endswith"): _str_endswith, (SStr, "replace"): _str_replace,
+    (SStr, "isalpha"): _str_isalpha, (SStr, "isalnum"): _str_isalnum, (SStr, "isdigit"): _str_isdigit,
     (SDict, "get"): _sdict_get, (SDict, "__contains__"): _sdict_contains,
 }
